@@ -32,6 +32,7 @@ PROPS = {
     "C08": "vf.harness.C08",
     "C10": "vf.harness.C10",
     "C11": "vf.harness.C11",
+    "C12": "vf.harness.C12",
     "C13": "vf.harness.C13",
     "C15": "vf.harness.C15",
     "C16": "vf.harness.C16",
